@@ -97,11 +97,14 @@ structure St (B V : Type) where
   lost : List (Nat × Nat)
   /-- ghost: the recursive parse ran out of fuel (the readers are cyclic: Python would raise RecursionError). -/
   stuck : Bool
+  /-- ghost: the view has been parsed at some time since the file was opened. -/
+  touched : Nat → Bool
 
 variable {B V : Type}
 
 def init (raw₀ : Nat → B) : St B V :=
-  { raw := raw₀, clr := fun _ => false, parsed := fun _ => none, pending := [], lost := [], stuck := false }
+  { raw := raw₀, clr := fun _ => false, parsed := fun _ => none, pending := [], lost := [], stuck := false,
+    touched := fun _ => false }
 
 def St.env (C : Codec B V) (s : St B V) : Nat → V := fun v => (s.parsed v).getD C.dflt
 
@@ -119,7 +122,8 @@ def access (T : Tables) (C : Codec B V) : Nat → Nat → St B V → St B V
         parsed := fun w => if w = u then some x else s1.parsed w
         pending := s1.pending ++ (T.view u).borrows.map fun e => (u, e)
         lost := s1.lost
-        stuck := s1.stuck }
+        stuck := s1.stuck
+        touched := fun w => if w = u then true else s1.touched w }
 
 /-- a sequence of attribute reads `bsp.<view>`. -/
 def accesses (T : Tables) (C : Codec B V) (xs : List Nat) (s : St B V) : St B V :=
